@@ -35,6 +35,43 @@ package calendar
 //@   ensures result.year == year && result.month == month && result.day == day
 //@   ensures result.hour == 0 && result.minute == 0 && result.second == 0
 
+//@ # seconds since the Julian Day epoch: JD*86400 of the date-time
+//@ spec func tsec(s *Solar) int
+//@   = sjdn(s)*86400 - 43200 + ssec(s)
+
+//@ # March-based year and month of Meeus' algorithm for the witness date of day number j
+//@ spec func ypOf(j int) int
+//@   = ite(mOf(j) <= 2, yOf(j)-1, yOf(j))
+//@ spec func mpOf(j int) int
+//@   = ite(mOf(j) <= 2, mOf(j)+12, mOf(j))
+
+//@ # Any instant given as a Julian Day converts to the valid date-time nearest to it (to the second).
+//@ # J is the day number (noon-based day containing the instant), F the day fraction; (yOf,mOf,dOf)(J) is the
+//@ # proved-to-exist date with that day number (lemma ymdOf), used as the witness the Meeus inverse must reproduce.
+//@ func NewSolarFromJulianDay(julianDay float64) *Solar [C04 C07]
+//@   requires 1721424.0 <= julianDay+0.5 && julianDay+0.5 <= 5373483.0
+//@   ensures float64(tsec(result)) - julianDay*86400.0 <= 0.501
+//@   ensures julianDay*86400.0 - float64(tsec(result)) <= 0.501
+//@   ensures inYears(result.year)
+//@   ghost J int = d @ d#1
+//@   ghost F float64 = f @ f#1
+//@   hint f#1: 0 <= F && F < 1 && 1721424 <= J && J+1 <= 5373484 && F-(julianDay+0.5-float64(J)) <= 1.0/1000000000.0 && (julianDay+0.5-float64(J))-F <= 1.0/1000000000.0
+//@   use ymdOf(J) @ f#1
+//@   use meeusFwd(yOf(J), mOf(J), dOf(J)) @ f#1
+//@   hint d#2: d == ite(J >= 2299161, J + 1 + (divf(ypOf(J), 100) - 4) - divf(divf(ypOf(J), 100) - 4, 4), J)
+//@   hint d#3: d == divf(1461*(ypOf(J)+4716), 4) + divf(306001*(mpOf(J)+1), 10000) + dOf(J)
+//@   hint year#1: year == ypOf(J) + 4716
+//@   hint d#4: d == divf(306001*(mpOf(J)+1), 10000) + dOf(J)
+//@   hint month#1: month == mpOf(J) + 1
+//@   hint day#1: day == dOf(J)
+//@   hint year#2: year == yOf(J) && month == mOf(J) && day == dOf(J)
+//@   hint second#1: 0 <= hour && hour <= 24 && 0 <= minute && minute <= 60 && 0 <= second && second <= 60 &&
+//@                  float64(hour*3600+minute*60+second) - F*86400.0 <= 0.5001 && F*86400.0 - float64(hour*3600+minute*60+second) <= 0.5001
+//@   hint hour#2: 0 <= hour && hour <= 24 && 0 <= minute && minute <= 59 && 0 <= second && second <= 59 && hour*3600+minute*60+second <= 86400 &&
+//@                  float64(hour*3600+minute*60+second) - F*86400.0 <= 0.5001 && F*86400.0 - float64(hour*3600+minute*60+second) <= 0.5001
+//@   split mOf(J) in 1..12
+//@   split ite(J >= 2299161, 1, 0) in 0..1
+
 //@ func (solar *Solar) GetJulianDay() float64 [C04]
 //@   requires inYears(solar.year)
 //@   ensures result - (float64(sjdn(solar)) - 0.5 + float64(ssec(solar))/86400.0) <= 1.0/1048576.0
